@@ -56,7 +56,7 @@ impl ops::Deref for Fragment {
 impl cmp::PartialEq for Fragment {
 	#[inline]
 	fn eq(&self, other: &Fragment) -> bool {
-		self.as_pct_str() == other.as_pct_str()
+		self.as_pct_str().bytes().eq(other.as_pct_str().bytes())
 	}
 }
 
@@ -79,14 +79,14 @@ impl PartialOrd for Fragment {
 impl Ord for Fragment {
 	#[inline]
 	fn cmp(&self, other: &Fragment) -> cmp::Ordering {
-		self.as_pct_str().cmp(other.as_pct_str())
+		self.as_pct_str().bytes().cmp(other.as_pct_str().bytes())
 	}
 }
 
 impl Hash for Fragment {
 	#[inline]
 	fn hash<H: hash::Hasher>(&self, hasher: &mut H) {
-		self.as_pct_str().hash(hasher)
+		self.as_pct_str().bytes().for_each(|b| b.hash(hasher))
 	}
 }
 
